@@ -170,11 +170,80 @@ class Instance(Host):
 
     __hash__ = object.__hash__
 
+    def __call__(self, *args, **kwargs):
+        it = object.__getattribute__(self, '_interp')
+        cls = object.__getattribute__(self, '_cls')
+        if it is None:
+            raise TypeError('instance is not callable')
+        try:
+            f = it._class_attr(cls.mod, None, self, cls, '__call__')
+        except AnalysisError:
+            raise InterpRaise('TypeError')
+        return f(*args, **kwargs)
+
     def __setattr__(self, k, v):
         self._d[k] = v
 
     def __repr__(self):
         return f'<{self._cls.node.name} instance>'
+
+
+class TupleInstance(Instance):
+    """Instance of a `typing.NamedTuple` class of the repository: the fields in declaration order, readable by name, by index
+    and by unpacking; methods the class defines (a callable record) are looked up in the class body as for any instance."""
+
+    def __init__(self, cls, interp, fields):
+        Instance.__init__(self, cls, interp)
+        object.__setattr__(self, '_fields_', tuple(fields))
+
+    def _tuple(self):
+        d = object.__getattribute__(self, '_d')
+        return tuple(d[f] for f in object.__getattribute__(self, '_fields_'))
+
+    def __getattr__(self, name):
+        if name == '_fields':
+            return object.__getattribute__(self, '_fields_')
+        if name == '_asdict':
+            return lambda: dict(zip(object.__getattribute__(self, '_fields_'), self._tuple()))
+        if name == '_replace':
+            def _replace(**kw):
+                new = TupleInstance(object.__getattribute__(self, '_cls'), object.__getattribute__(self, '_interp'), object.__getattribute__(self, '_fields_'))
+                new._d.update(object.__getattribute__(self, '_d'))
+                for k, v in kw.items():
+                    if k not in new._d:
+                        raise InterpRaise('ValueError')
+                    new._d[k] = v
+                return new
+            return _replace
+        return Instance.__getattr__(self, name)
+
+    def __iter__(self):
+        return iter(self._tuple())
+
+    def __len__(self):
+        return len(object.__getattribute__(self, '_fields_'))
+
+    def __getitem__(self, i):
+        return self._tuple()[i]
+
+    def __eq__(self, other):
+        if isinstance(other, TupleInstance):
+            return self._tuple() == other._tuple()
+        if isinstance(other, tuple):
+            return self._tuple() == other
+        return False
+
+    def __ne__(self, other):
+        return not self.__eq__(other)
+
+    def __hash__(self):
+        return hash(self._tuple())
+
+    def __setattr__(self, k, v):
+        raise InterpRaise('AttributeError')
+
+    def __repr__(self):
+        return f'{self._cls.node.name}{self._tuple()!r}'
 
 
 class Env:
@@ -1077,6 +1146,8 @@ class Interp:
         if isinstance(obj, Instance):
             if attr in obj._d:
                 return obj._d[attr]
+            if isinstance(obj, TupleInstance) and attr in ('_fields', '_asdict', '_replace'):
+                return getattr(obj, attr)
             return self._class_attr(mod, node, obj, obj._cls, attr)
         if obj in (int, str, bytes, dict, list, tuple, set, bytearray, float) or (isinstance(obj, type) and getattr(obj, '__module__', '') in ('itertools', 'collections', 'functools', 'operator')):
             return getattr(obj, attr)
@@ -1128,6 +1199,30 @@ class Interp:
         )
 
     def instantiate(self, cls: 'RepoClass', args=(), kwargs=None):
+        if any(norm(b).split('.')[-1] == 'NamedTuple' for b in cls.node.bases):
+            # synthesised constructor of a typing.NamedTuple: annotated class-level fields in order, defaults from the class body
+            fields = [st for st in cls.node.body if isinstance(st, ast.AnnAssign) and isinstance(st.target, ast.Name)]
+            inst = TupleInstance(cls, self, [st.target.id for st in fields])
+            args = list(args)
+            kwargs = dict(kwargs or {})
+            if len(args) > len(fields):
+                raise InterpRaise('TypeError')
+            for i, st in enumerate(fields):
+                name = st.target.id
+                if i < len(args):
+                    if name in kwargs:
+                        raise InterpRaise('TypeError')
+                    v = args[i]
+                elif name in kwargs:
+                    v = kwargs.pop(name)
+                elif st.value is not None:
+                    v = self.eval(cls.mod, st.value, Env())
+                else:
+                    raise InterpRaise('TypeError')
+                inst._d[name] = v
+            if kwargs:
+                raise InterpRaise('TypeError')
+            return inst
         inst = Instance(cls, self)
         if f'{cls.node.name}.__init__' in cls.mod.functions:
             RepoFunc(self, cls.mod, cls.mod.functions[f'{cls.node.name}.__init__'], bound_self=inst)(*args, **(kwargs or {}))
